@@ -15,5 +15,43 @@ RT(emitDevs) ==
       t3 == MachineTree(Unparse(t2, emitDevs), {})
   IN Equiv(t2, t1) /\ Equiv(t3, t2)
 RoundTrip == done \/ RT({})
+
+(* ---- EMPTY PARTS: calls, argument references and links whose arguments are all / partly    *)
+(* empty, alone / in running text / in a table cell.  One state, two invariants              *)
+(* (MC_Unparse_E.cfg):                                                                        *)
+(*   EmptyPartsRoundTrip  the ideal emitter round-trips every such page through the ideal     *)
+(*                        parser (an empty argument stays an empty argument, the node kind    *)
+(*                        stays what it was);                                                 *)
+(*   WhatIfsBreak         each what-if of Unparse.WhatIfEmptyArgDevs (an emitter that takes   *)
+(*                        an empty argument for an absent one) breaks it on some page: TLC    *)
+(*                        prints the witness.                                                 *)
+ArgMasks(lo, hi) == {m \in UNION { [1..n -> {<<>>, W("a1")}] : n \in lo..hi } : \E i \in 1..Len(m) : m[i] = <<>>}
+EmptyItems ==
+  { Tp(<<W("t")>> \o as) : as \in ArgMasks(1, 3) }
+  \cup { Pf(nm, as) : nm \in {<<"#", "if">>, <<"#", "switch">>}, as \in ArgMasks(1, 3) }
+  \cup { Pf(nm, as) : nm \in {<<"lc">>, <<"PAGENAME">>}, as \in ArgMasks(1, 2) }
+  \cup { Ar(<<W("1")>> \o as) : as \in ArgMasks(1, 2) }
+  \cup { Lk(<<W("l")>> \o as, <<>>) : as \in ArgMasks(1, 2) }
+  \cup { Tp(<<W("t"), <<Pf(<<"#", "if">>, as)>>, <<>>>>) : as \in ArgMasks(1, 2) }     \* as an argument of another call
+  \cup { Pf(<<"#", "if">>, <<<<Pf(<<"lc">>, <<<<>>>>)>>, <<>>>>) }
+EmptyPages == { Surround(sn, it) : sn \in 1..3, it \in EmptyItems }
+RTText(text, emitDevs) ==
+  LET t1 == MachineTree(text, {})
+      t2 == MachineTree(Unparse(t1, emitDevs), {})
+      t3 == MachineTree(Unparse(t2, emitDevs), {})
+  IN Equiv(t2, t1) /\ Equiv(t3, t2)
+EmptyPartsRoundTrip ==
+  \A pg \in EmptyPages :
+     \/ Equiv(MachineTree(Render(pg), {}), TreeOf(pg)) /\ RTText(Render(pg), {})
+     \/ ~PrintT(<<"EMPTYFAIL", ToJson([text |-> Render(pg)])>>)
+WhatIfsBreak ==
+  \A d \in WhatIfEmptyArgDevs :
+     LET W0 == {pg \in EmptyPages : ~RTText(Render(pg), {d})} IN
+     /\ W0 # {}
+     /\ LET pg == CHOOSE q \in W0 : \A r \in W0 : Len(Render(q)) <= Len(Render(r))
+        IN PrintT(<<"WHATIF", ToJson([dev |-> d, pages |-> Cardinality(W0), text |-> Render(pg),
+                                      emitted |-> Unparse(MachineTree(Render(pg), {}), {d})])>>)
+InitE == page = <<>> /\ done = TRUE
+SpecE == InitE /\ [][Next]_<<page, done>>
 RoundTripAsIs == done \/ RT(AllUnparseDevs)
 =============================================================================
